@@ -25,6 +25,21 @@ pub fn judge(files: &BTreeMap<String, Vec<u8>>, resolve: &Resolve, world: WorldI
     let module = match wasmbuild::build_c_module(files, tmp.path(), &[], false) {
         Ok(m) => m,
         Err(CBuildError::Compile(e)) => {
+            // listed finding: a type declared in the world itself and named `string` gets the C
+            // name of the world's own string type
+            let w = &resolve.worlds[world];
+            let c_name = format!("{}_string_t", heck::ToSnakeCase::to_snake_case(w.name.as_str()));
+            let world_type_named_string = resolve.types.iter().any(|(_, t)| t.name.as_deref() == Some("string") && t.owner == wit_parser::TypeOwner::World(world));
+            let first = e.lines().find(|l| l.contains("error")).unwrap_or("");
+            if world_type_named_string && first.contains("redefinition") && first.contains(&c_name) {
+                return Err(Failure::new(backends::KF_C_WORLD_TYPE_NAMED_STRING, format!("clang --target=wasm32 rejects the generated C ({variant}): {e}\n{ctx}")));
+            }
+            // listed finding: `stream<%bool>` and `stream<bool>` (likewise futures) share one set
+            // of helper functions
+            let named = |p: &str| resolve.types.iter().any(|(_, t)| t.name.as_deref() == Some(p));
+            if (first.contains("redefinition") || first.contains("conflicting types")) && backends::PRIMITIVE_NAMES.iter().any(|p| named(p) && (first.contains(&format!("_stream_{p}_")) || first.contains(&format!("_future_{p}_")))) {
+                return Err(Failure::new(backends::KF_C_PAYLOAD_NAMED_LIKE_PRIMITIVE, format!("clang --target=wasm32 rejects the generated C ({variant}): {e}\n{ctx}")));
+            }
             return Err(Failure::new(format!("c-compile-error: {}", norm_diag(&e)), format!("clang --target=wasm32 rejects the generated C ({variant}): {e}\n{ctx}")));
         }
         Err(CBuildError::Link(e)) => {
@@ -106,6 +121,29 @@ pub fn run(check: &mut Check) {
                 judge(&files, &resolve, world, variant, &format!("tests/codegen/{name} variant {variant}"), obs)
             });
         }
+    }
+    // witness of the listed finding (a different failure of this world is still reported)
+    {
+        let wit = "package a:b;\nworld w {\n  enum %string { a }\n  import f: func(x: %string, y: string);\n}\n";
+        check.case("witness-world-type-named-string", &serde_json::json!({"wit": wit}), |_, obs| {
+            let (resolve, world) = backends::resolve_input(&Input::Text(wit), None).map_err(|e| Failure::new("harness", format!("{e:#}")))?;
+            let files = match backends::generate("c", &[], &resolve, world, None) {
+                GenOutcome::Files(f) => f,
+                _ => return Ok(()),
+            };
+            judge(&files, &resolve, world, "default", wit, obs)
+        });
+    }
+    {
+        let wit = "package a:b;\ninterface i {\n  enum %bool { a, b }\n  f: func(x: stream<%bool>) -> stream<bool>;\n}\nworld w {\n  import i;\n}\n";
+        check.case("witness-payload-named-like-primitive", &serde_json::json!({"wit": wit}), |_, obs| {
+            let (resolve, world) = backends::resolve_input(&Input::Text(wit), None).map_err(|e| Failure::new("harness", format!("{e:#}")))?;
+            let files = match backends::generate("c", &[], &resolve, world, None) {
+                GenOutcome::Files(f) => f,
+                _ => return Ok(()),
+            };
+            judge(&files, &resolve, world, "default", wit, obs)
+        });
     }
     let n = check.tier.pick(160, 20_000);
     check.prop("worlds", || (tape_strategy(700), Just(0u8), any::<u8>()).prop_map(|(tape, backend, variant)| WorldCase { tape, backend, variant }), n, prop);
